@@ -54,6 +54,43 @@ end PartSpec
 def Exact (P : PartSpec) (n size : Nat) : Prop :=
   (P.visits n size).flatten = (List.range n).map Int.ofNat
 
+/-! ## Schedules: write logs and their interleavings -/
+
+/-- `Interleaving logs s`: `s` is a merge of the workers' event logs that preserves the internal order of each log —
+    at every step some worker `k` whose log is not exhausted performs its next event.  This is the set of
+    executions of `go worker₀ ‖ … ‖ worker_{m-1}; wg.Wait()` at the granularity of events. -/
+inductive Interleaving {β : Type} : List (List β) → List β → Prop
+  | done {logs : List (List β)} : (∀ l ∈ logs, l = []) → Interleaving logs []
+  | step {logs : List (List β)} {s : List β} (k : Nat) (x : β) (rest : List β) :
+      logs[k]? = some (x :: rest) → Interleaving (logs.set k rest) s → Interleaving logs (x :: s)
+
+/-- memory cells indexed by Go `int`; a store `a[i] = v` -/
+def write {α : Type} (m : Int → α) (e : Int × α) : Int → α := fun j => if j = e.1 then e.2 else m j
+
+/-- perform a sequence of stores -/
+def run {α : Type} (m : Int → α) (s : List (Int × α)) : Int → α := s.foldl write m
+
+namespace PartSpec
+
+/-- stores of worker `i` of a Modify method: `modified[w j] = f(cbIndex j, data[readIndex j])` for its loop values `j` -/
+def storeLog {α : Type} (P : PartSpec) (w : Int → Int) (f : Int → α → α) (data : Int → α) (n size i : Int) : List (Int × α) :=
+  (P.iters n size i).map (fun j => (w j, f (P.cbIndex j) (data (P.readIndex j))))
+
+def storeLogs {α : Type} (P : PartSpec) (w : Int → Int) (f : Int → α → α) (data : Int → α) (n size : Int) : List (List (Int × α)) :=
+  (intRange 0 (P.workers n size)).map (P.storeLog w f data n size)
+
+/-- callback events of worker `i` of a Scan method: `f(cbIndex j, data[readIndex j])` -/
+def callLog {α : Type} (P : PartSpec) (data : Int → α) (n size i : Int) : List (Int × α) :=
+  (P.iters n size i).map (fun j => (P.cbIndex j, data (P.readIndex j)))
+
+def callLogs {α : Type} (P : PartSpec) (data : Int → α) (n size : Int) : List (List (Int × α)) :=
+  (intRange 0 (P.workers n size)).map (P.callLog data n size)
+
+end PartSpec
+
+/-- what the sequential `for i, v := range data { … f(i, v) … }` delivers / stores, in order -/
+def seqEvents {α : Type} (g : Int → α) (n : Nat) : List (Int × α) := (List.range n).map (fun (k : Nat) => ((k : Int), g (k : Int)))
+
 /-- insertion sort on Int (used by the driver to canonicalise a multiset of visits) -/
 def insertSorted (x : Int) : List Int → List Int
   | [] => [x]
